@@ -154,7 +154,7 @@ def run(ctx):
     #      SelfAdjoint / PSD declared on the root or inferred by cola (W^H W), Unitary declared on permutation products;
     #      every offset, Exact / Auto / trace.  The model ignores annotations: they must not change any value.
     for n in range(1, 7):
-        for _ in range(ctx.budget(6, 40)):
+        for _ in range(ctx.budget(4, 40)):
             dt = rnd.choice(T.CPLX + T.CPLX + T.REAL)
             g = L.SqGen(rnd, dt)
             if rnd.random() < 0.12:
@@ -168,7 +168,7 @@ def run(ctx):
                 continue
             dqs = [(k, a) for k in offsets_small(n) for a in (EX, AU)]
             tcases.append(dict(tree=t, n=n, dqs=dqs, tqs=[EX, AU], allk=[], cls="small", ann=ann))
-    for n in (rnd.choice([101, 150]), rnd.choice([199, 230])) if ctx.tier != "thorough" else (99, 101, 150, 199, 200, 230):
+    for n in (rnd.choice([101, 150, 199, 230]),) if ctx.tier != "thorough" else (99, 101, 150, 199, 200, 230):
         dt = rnd.choice(T.CPLX)
         g = L.SqGen(rnd, dt, vmax=2)
         off = [g.val() for _ in range(n - 1)]
